@@ -18,6 +18,21 @@ class NotModelled(Exception):
     pass
 
 
+def P(op: Any, name: str, attr: str | None = None) -> Any:
+    """Parameter ``name`` as the client passed it to the constructor (recorded at the boundary by the
+    constructor monitor); falls back to the stored attribute for operators built by the library."""
+    from .core import client_args
+
+    rec = client_args(op)
+    if rec is not None and name in rec and rec[name] is not None:
+        return rec[name]
+    return getattr(op, attr or name)
+
+
+def _tuple(v: Any) -> tuple[Any, ...]:
+    return v if isinstance(v, tuple) else (v,)
+
+
 def np_leaves(x: Any) -> list[np.ndarray]:
     return [np.asarray(l, dtype=np.float64) for l in jax.tree.leaves(x)]
 
@@ -36,15 +51,15 @@ def np_index(indices: tuple[Any, ...]) -> tuple[Any, ...]:
 
 
 def ref_index(op: Any, x: Any) -> list[np.ndarray]:
-    idx = np_index(op.indices)
+    idx = np_index(_tuple(P(op, 'indices')))
     return [l[idx] for l in np_leaves(x)]
 
 
 def ref_index_T(op: Any, y: Any) -> list[np.ndarray]:
     """Transpose of an index operator: scatter-add of y into zeros of the input shape."""
-    idx = np_index(op.indices)
+    idx = np_index(_tuple(P(op, 'indices')))
     outs = []
-    for l, yl in zip(jax.tree.leaves(op.in_structure()), np_leaves(y)):
+    for l, yl in zip(jax.tree.leaves(P(op, 'in_structure', '_in_structure')), np_leaves(y)):
         z = np.zeros(l.shape)
         np.add.at(z, idx, yl)
         outs.append(z)
@@ -52,7 +67,7 @@ def ref_index_T(op: Any, y: Any) -> list[np.ndarray]:
 
 
 def ref_pack(op: Any, x: Any) -> list[np.ndarray]:
-    mask = np.asarray(op.mask)
+    mask = np.asarray(P(op, 'mask'))
     return [l[mask] for l in np_leaves(x)]
 
 
@@ -60,20 +75,24 @@ def ref_pack(op: Any, x: Any) -> list[np.ndarray]:
 
 
 def ref_moveaxis(op: Any, x: Any) -> list[np.ndarray]:
-    return [np.moveaxis(l, op.source, op.destination) for l in np_leaves(x)]
+    src, dst = P(op, 'source'), P(op, 'destination')
+    src = tuple(src) if not isinstance(src, int) else src
+    dst = tuple(dst) if not isinstance(dst, int) else dst
+    return [np.moveaxis(l, src, dst) for l in np_leaves(x)]
 
 
 def ref_ravel(op: Any, x: Any) -> list[np.ndarray]:
     outs = []
+    first, last = P(op, 'first_axis'), P(op, 'last_axis')
     for l in np_leaves(x):
-        f = op.first_axis + l.ndim if op.first_axis < 0 else op.first_axis
-        la = op.last_axis + l.ndim if op.last_axis < 0 else op.last_axis
+        f = first + l.ndim if first < 0 else first
+        la = last + l.ndim if last < 0 else last
         outs.append(l.reshape(l.shape[:f] + (-1,) + l.shape[la + 1:]))
     return outs
 
 
 def ref_reshape(op: Any, x: Any) -> list[np.ndarray]:
-    return [np.reshape(l, op.shape) for l in np_leaves(x)]
+    return [np.reshape(l, tuple(P(op, 'shape'))) for l in np_leaves(x)]
 
 
 def ref_reshape_T(op: Any, y: Any) -> list[np.ndarray]:
@@ -111,18 +130,32 @@ def diagonal_layout(values: np.ndarray, axis_destination: tuple[int, ...], leaf_
 
 
 def ref_diagonal_values(op: Any) -> np.ndarray:
-    v = np.asarray(op._diagonal, dtype=np.float64)
+    if type(op).__name__ == 'DiagonalInverseOperator':
+        v = ref_diagonal_values(op.operator)
+    else:
+        v = np.asarray(P(op, 'diagonal', '_diagonal'), dtype=np.float64)
     if type(op).__name__ == 'DiagonalInverseOperator':
         with np.errstate(divide='ignore'):
             v = np.where(v != 0, 1.0 / np.where(v != 0, v, 1.0), 0.0)
     return v
 
 
+def axis_spec(op: Any) -> tuple[int, ...]:
+    """Documented expansion of axis_destination as the client gave it."""
+    if type(op).__name__ == 'DiagonalInverseOperator':
+        return axis_spec(op.operator)
+    spec = P(op, 'axis_destination')
+    vnd = np.ndim(P(op, 'diagonal', '_diagonal'))
+    if isinstance(spec, int):
+        return tuple(range(spec, spec + vnd)) if spec >= 0 else tuple(range(spec - vnd + 1, spec + 1))
+    return tuple(spec)
+
+
 def ref_diagonal(op: Any, x: Any) -> list[np.ndarray]:
     v = ref_diagonal_values(op)
     outs = []
     for l in np_leaves(x):
-        lay, right = diagonal_layout(v, op.axis_destination, l.ndim)
+        lay, right = diagonal_layout(v, axis_spec(op), l.ndim)
         outs.append(lay * l.reshape(l.shape + (1,) * right))
     return outs
 
@@ -134,11 +167,12 @@ def ref_dense(op: Any, x: Any) -> list[np.ndarray]:
     from furax.tree import is_leaf
 
     xs = np_leaves(x)
-    if is_leaf(op.blocks):
-        b = np.asarray(op.blocks, dtype=np.float64)
-        return [np.einsum(op.subscripts, b, l) for l in xs]
-    bs = np_leaves(op.blocks)
-    return [np.einsum(op.subscripts, b, l) for b, l in zip(bs, xs)]
+    blocks, subs = P(op, 'blocks'), P(op, 'subscripts').replace(' ', '')
+    if is_leaf(blocks):
+        b = np.asarray(blocks, dtype=np.float64)
+        return [np.einsum(subs, b, l) for l in xs]
+    bs = np_leaves(blocks)
+    return [np.einsum(subs, b, l) for b, l in zip(bs, xs)]
 
 
 # ---- Toeplitz ------------------------------------------------------------------------------------
@@ -153,7 +187,7 @@ def toeplitz_matrix(n: int, band: np.ndarray) -> np.ndarray:
 
 def ref_toeplitz(op: Any, x: Any) -> list[np.ndarray]:
     xl = np.asarray(x, dtype=np.float64)
-    band = np.asarray(op.band_values, dtype=np.float64)
+    band = np.asarray(P(op, 'band_values'), dtype=np.float64)
     n = xl.shape[-1]
     batch = np.broadcast_shapes(xl.shape[:-1], band.shape[:-1])
     xb = np.broadcast_to(xl, batch + (n,))
@@ -191,11 +225,11 @@ def _rot(angles: np.ndarray, x: Any, sign: float) -> list[np.ndarray]:
 
 
 def ref_qurot(op: Any, x: Any) -> list[np.ndarray]:
-    return _rot(op.angles, x, +1.0)
+    return _rot(P(op, 'angles'), x, +1.0)
 
 
 def ref_qurot_T(op: Any, x: Any) -> list[np.ndarray]:
-    return _rot(op.operator.angles, x, -1.0)
+    return _rot(P(op.operator, 'angles'), x, -1.0)
 
 
 def ref_polarizer(op: Any, x: Any) -> list[np.ndarray]:
